@@ -24,6 +24,8 @@ class FakeNode:
         self.constants = {"hard_gas_limit_per_operation": "1040000", "hard_storage_limit_per_operation": "60000",
                           "cost_per_byte": "250", "origination_size": 257, "minimal_block_delay": "8",
                           "hard_gas_limit_per_block": "1386666"}
+        self.history: Dict[int, Dict[str, int]] = {}     # level -> account counters as of that block (recorded by the harness)
+        self.scripts: Dict[str, dict] = {}               # KT1 -> {"code": [...], "storage": ...}
         self.run_operation_handler: Optional[Callable[[dict], dict]] = None
         self.inject_handler: Optional[Callable[[bytes], str]] = None
         self._rpc_error = None
@@ -66,10 +68,20 @@ class FakeNode:
                 raise self._err("Not found: %s" % path)
             if len(rest) >= 3 and rest[:2] == ["context", "contracts"]:
                 addr = rest[2]
+                counters = self.counters
+                if parts[3].isdigit() and int(parts[3]) in self.history:   # a past block: the state as of that block
+                    counters = self.history[int(parts[3])]
+                if addr in self.scripts:
+                    if len(rest) == 3:
+                        return {"balance": "0", "script": self.scripts[addr]}
+                    if rest[3] == "script":
+                        return self.scripts[addr]
+                    if rest[3] == "storage":
+                        return self.scripts[addr]["storage"]
                 if len(rest) == 3:
-                    return {"balance": str(self.balances.get(addr, 10 ** 12)), "counter": str(self.counters.get(addr, 0))}
+                    return {"balance": str(self.balances.get(addr, 10 ** 12)), "counter": str(counters.get(addr, 0))}
                 if rest[3] == "counter":
-                    return str(self.counters.get(addr, 0))
+                    return str(counters.get(addr, 0))
                 if rest[3] == "balance":
                     return str(self.balances.get(addr, 10 ** 12))
                 if rest[3] == "manager_key":
